@@ -1109,6 +1109,9 @@ class PartialReduce(ArrayExpr):
                     meta = np.empty(target_shape, dtype=meta.dtype)
                 else:
                     meta = meta.reshape(target_shape)
+        elif is_arraylike(meta) and meta.ndim and getattr(meta, "size", 0):
+            # keepdims leaves length-1 axes on the reduced meta: keep the meta empty
+            meta = meta[(slice(0, 0),) * meta.ndim]
 
         # Ensure meta has the correct dtype if dtype is explicitly specified
         if self.operand("dtype") is not None and hasattr(meta, "dtype"):
